@@ -219,7 +219,7 @@ Proof.
     destruct (resolve_aref w a) as [x|] eqn:E2; [|apply IE_refl; auto].
     pose proof (resolve_aref_valid _ _ _ Hwf E2).
     assert (srcs_valid w [copy_src copy x]). { constructor; [|constructor]. destruct copy; cbn [fst snd]; auto. }
-    destruct (norm_index (length old) i); cbn [fst snd]; apply install_IE; auto.
+    destruct (norm_index (length old) i); cbn [fst snd]; [apply install_IE; auto|apply IE_refl; auto].
   - (* SetSlice *)
     destruct (get_struct w h) as [[old L]|] eqn:E1; [|apply IE_refl; auto].
     destruct (get_obj w v) as [vo|] eqn:E2; [|apply IE_refl; auto].
@@ -229,7 +229,7 @@ Proof.
     assert (Hs : srcs_valid w (map (fun a => if copy && negb (memb a (pick old idxs)) then Dup a else Keep a) (obj_items vo))).
     { apply srcs_valid_choice. auto. }
     destruct (Z.eqb stp 1); cbn [fst snd]; [apply install_IE; auto|].
-    match goal with |- context [if ?c then _ else _] => destruct c end; cbn [fst snd]; apply install_IE; auto.
+    match goal with |- context [if ?c then _ else _] => destruct c end; cbn [fst snd]; [apply install_IE; auto|apply IE_refl; auto].
   - (* DelInt *)
     destruct (get_struct w h) as [[old L]|] eqn:E1; [|apply IE_refl; auto].
     destruct (norm_index (length old) i); cbn [fst snd]; [apply install_IE; auto; constructor|apply IE_refl; auto].
